@@ -472,7 +472,7 @@ class Schema(dict, metaclass=LogicalMeta):
         dict.update(obj, self)
         # since self.<data> is validated
         # we directly call dict.update to avoid calling the parsing methods again
-        obj.__dict__ = self.__dict__
+        obj.__dict__ = dict(self.__dict__)    # own attribute dict: changes of the copy must not reach the original
         return obj
 
     def clear(self):
